@@ -45,23 +45,29 @@ func (s *vfState) commit(store db.DB) {
 }
 
 type vfCrashWorld struct {
-	u      *vfUniverse
-	states map[*types.Block]*vfState
+	u   *vfUniverse
+	idx map[*types.Block]int // content index of the block's world state
+}
+
+// commitState makes the world state of blk durable in store (a fresh trie each time: a state commit that died
+// leaves nothing behind, a repeated one rewrites the same nodes).
+func (w *vfCrashWorld) commitState(store db.DB, blk *types.Block) {
+	vfMakeState(store, w.idx[w.find(blk)]).commit(store)
 }
 
 func vfCrashUniverse(a, f, b int, minTx, maxTx int) *vfCrashWorld {
 	kv := vf.NewKV()
 	skv := &vf.PrefixKV{KV: kv, Prefix: []byte("S")}
-	var sts []*vfState
+	n := 0
 	rootOf := func(string, int) []byte {
-		st := vfMakeState(skv, len(sts))
-		sts = append(sts, st)
+		st := vfMakeState(skv, n)
+		n++
 		return st.root
 	}
 	u := vfBuildOn(kv, skv, a, b, f, vfTxRange(minTx, maxTx), rootOf)
-	w := &vfCrashWorld{u: u, states: map[*types.Block]*vfState{}}
+	w := &vfCrashWorld{u: u, idx: map[*types.Block]int{}}
 	for i, blk := range u.all {
-		w.states[blk] = sts[i]
+		w.idx[blk] = i
 	}
 	return w
 }
@@ -69,6 +75,12 @@ func vfCrashUniverse(a, f, b int, minTx, maxTx int) *vfCrashWorld {
 // restart: a new process over the surviving store: Core.init (ChainDB.Init = loadChainData + recover; the state DB
 // opens at the best block's root) and then ChainService.Recover.
 func vfRestart(ob string, kv *vf.KV, crashAt int, afterInit func(cdb *ChainDB, kv2 *vf.KV), opened **vf.KV) (*ChainService, *vf.KV, *vf.HubLog, error) {
+	return vfRestartAt(kv, crashAt, afterInit, opened, nil)
+}
+
+// vfRestartAt: sroot != nil opens the state DB at that root instead of the best block's (a state DB that is not in
+// step with the chain DB).
+func vfRestartAt(kv *vf.KV, crashAt int, afterInit func(cdb *ChainDB, kv2 *vf.KV), opened **vf.KV, srootOverride []byte) (*ChainService, *vf.KV, *vf.HubLog, error) {
 	kv2 := kv.Reopen()
 	if opened != nil {
 		*opened = kv2
@@ -94,6 +106,9 @@ func vfRestart(ob string, kv *vf.KV, crashAt int, afterInit func(cdb *ChainDB, k
 	var sroot []byte
 	if best != nil {
 		sroot = best.GetHeader().GetBlocksRootHash()
+	}
+	if srootOverride != nil {
+		sroot = srootOverride
 	}
 	cs, _, log := vfNewCS(kv2, skv2, cc, sroot)
 	cs.Core.cdb = cdb
@@ -137,17 +152,13 @@ func VF_C06_a() {
 	u := w.u
 	// history before the reorganisation: genesis and the main branch are executed (state committed) and connected,
 	// the side branch is stored
-	w.states[u.gen].commit(u.skv)
-	for _, blk := range u.main {
-		w.states[blk].commit(u.skv)
-	}
-	u.populate()
+	w.history()
 	bestRoot := u.mainAt(a).Header.BlocksRootHash
 	u.cs.sdb.SetRoot(bestRoot)
 	top := u.side[b-1]
 	exec := func(_ *state.BlockState, blk *types.Block) error {
 		// durable effect of a successful executeBlock: the state commit (one bulk, marker last)
-		w.states[w.find(blk)].commit(u.skv)
+		w.commitState(u.skv, blk)
 		u.cs.sdb.SetRoot(blk.GetHeader().GetBlocksRootHash())
 		u.cs.Update(blk)
 		return nil
@@ -272,4 +283,146 @@ func vfCheckHeights(ob string, cdb *ChainDB, kv *vf.KV, path []*types.Block, max
 		_, err := cdb.getHashByNo(uint64(h))
 		vf.Assert(err != nil, ob)
 	}
+}
+
+// history: what happened before the scenario: genesis and the main branch were executed (state committed) and connected,
+// the side branch was received and stored; the state DB stands at the best block's root.
+func (w *vfCrashWorld) history() {
+	u := w.u
+	w.commitState(u.skv, u.gen)
+	for _, blk := range u.main {
+		w.commitState(u.skv, blk)
+	}
+	u.populate()
+	u.cs.sdb.SetRoot(u.mainAt(u.a).Header.BlocksRootHash)
+}
+
+// C06.n: normal recovery refuses a state DB whose root is not the best block's root (and accepts the matching one).
+func VF_C06_n() {
+	a := 1 + vf.Choice("a", vf.Param("maxA", 2))
+	w := vfCrashUniverse(a, 0, 0, vf.Param("minTx", 0), vf.Param("maxTx", 0))
+	w.history()
+	u := w.u
+	other := vf.Choice("stateAt", a+1) // height whose root the state DB is opened at
+	cs2, _, _, err := vfRestartAt(u.kv, -1, nil, nil, u.mainAt(other).Header.BlocksRootHash)
+	vf.Reach("C06.n")
+	vf.Assert(cs2 != nil, "C06.n")
+	if other == a {
+		vf.Assert(err == nil, "C06.n")
+	} else {
+		vf.Assert(err == ErrRecoInvalidSdbRoot, "C06.n")
+	}
+	vf.Observe("err", err != nil)
+}
+
+// C06.l: the process dies while one block is being connected (durable units: the state commit of the executed block,
+// then the single chain-DB transaction of chainProcessor.connectToChain). After restart + normal recovery: no error,
+// the best block is the previous tip or the new block, the C05 invariant holds for it (the tip move is all-or-nothing),
+// the best block's state root is marked complete.
+func VF_C06_l() {
+	a := 1 + vf.Choice("a", vf.Param("maxA", 2))
+	w := vfCrashUniverse(a, 0, 0, vf.Param("minTx", 1), vf.Param("maxTx", 1))
+	u := w.u
+	last := u.main[a-1]
+	u.main = u.main[:a-1]
+	u.a = a - 1
+	w.history()
+	k := vf.Int("crashAt")
+	vf.Assume(k >= -1)
+	vf.Assume(k <= 8)
+	if k >= 0 {
+		u.kv.CrashAt = u.kv.Units + k
+	}
+	var cerr error
+	crashed := vf.RunUntilCrash(func() {
+		w.commitState(u.skv, last) // blockExecutor.commit
+		cerr = u.connect(last)     // chainProcessor.connectToChain
+	})
+	if !crashed {
+		vf.Assert(cerr == nil, "C06.l")
+	}
+	cs2, kv2, _, err := vfRestart("C06.l", u.kv, -1, nil, nil)
+	vf.Reach("C06.l")
+	vf.Assert(err == nil && cs2 != nil, "C06.l")
+	if err != nil || cs2 == nil {
+		return
+	}
+	best, _ := cs2.GetBestBlock()
+	vf.Assert(best != nil, "C06.l")
+	if best == nil {
+		return
+	}
+	if bytes.Equal(best.GetHash(), last.Hash) {
+		vf.Reach("C06.l.new")
+		vfCheckChain("C06.l", cs2, kv2, append(u.oldPath(), last))
+	} else {
+		vf.Reach("C06.l.old")
+		vf.Assert(crashed, "C06.l")
+		vfCheckChain("C06.l", cs2, kv2, u.oldPath())
+	}
+	vf.Assert(cs2.sdb.GetStateDB().HasMarker(best.GetHeader().GetBlocksRootHash()), "C06.l")
+	vf.Assert(bytes.Equal(cs2.sdb.GetRoot(), best.GetHeader().GetBlocksRootHash()), "C06.l")
+	vf.Observe("crashed", crashed)
+	vf.Observe("best", cs2.cdb.getBestBlockNo())
+}
+
+// C06.c: convergence. After the crash and the recovery, handing the tip of the side branch to the node again (when the
+// recovery ended on the old tip) leads to exactly the store content of a run without the crash, key by key (both DBs).
+func VF_C06_c() {
+	a, f, b := vfShape(vf.Param("maxA", 1), vf.Param("maxExtra", 1))
+	w := vfCrashUniverse(a, f, b, vf.Param("minTx", 1), vf.Param("maxTx", 1))
+	u := w.u
+	w.history()
+	top := u.side[b-1]
+	bestRoot := u.mainAt(a).Header.BlocksRootHash
+	run := func(cs *ChainService, skv db.DB, tip *types.Block) error {
+		_, err := vfReorgWith(cs, tip, func(_ *state.BlockState, blk *types.Block) error {
+			w.commitState(skv, blk)
+			cs.sdb.SetRoot(blk.GetHeader().GetBlocksRootHash())
+			cs.Update(blk)
+			return nil
+		})
+		return err
+	}
+	// reference: the same reorganisation without a crash, on a copy of the store
+	kvRef := u.kv.Reopen()
+	skvRef := &vf.PrefixKV{KV: kvRef, Prefix: []byte("S")}
+	csRef, _, _ := vfNewCS(kvRef, skvRef, &vfCC{failAt: -1}, bestRoot)
+	if err := csRef.cdb.loadChainData(); err != nil {
+		vf.Fail("setup")
+	}
+	if err := run(csRef, skvRef, top); err != nil {
+		vf.Fail("setup")
+	}
+	// the run that dies
+	k := vf.Int("crashAt")
+	vf.Assume(k >= 0)
+	vf.Assume(k <= 64)
+	u.kv.CrashAt = u.kv.Units + k
+	crashed := vf.RunUntilCrash(func() { run(u.cs, u.skv, top) })
+	vf.Assume(crashed)
+	cs2, kv2, _, err := vfRestart("C06.c", u.kv, -1, nil, nil)
+	vf.Assert(err == nil && cs2 != nil, "C06.c")
+	if err != nil || cs2 == nil {
+		return
+	}
+	best, _ := cs2.GetBestBlock()
+	if bytes.Equal(best.GetHash(), u.mainAt(a).Hash) {
+		vf.Reach("C06.c.redo")
+		tip, err := cs2.GetBlock(top.Hash)
+		vf.Assert(err == nil && tip != nil, "C06.c")
+		vf.Assert(cs2.needReorg(tip), "C06.c")
+		skv2 := &vf.PrefixKV{KV: kv2, Prefix: []byte("S")}
+		vf.Assert(run(cs2, skv2, tip) == nil, "C06.c")
+	}
+	vf.Reach("C06.c")
+	vf.Assert(len(kv2.M) == len(kvRef.M), "C06.c")
+	for key, want := range kvRef.M {
+		got, ok := kv2.M[key]
+		vf.Assert(ok, "C06.c")
+		if ok {
+			vf.Assert(bytes.Equal(got, want), "C06.c")
+		}
+	}
+	vf.Observe("keys", len(kv2.M))
 }
